@@ -1,13 +1,13 @@
 //! C05: histories of the public buffer API with the budget/progress fields observed through the hook
 //! after every step, for the correspondence with coq/Model/Api.v.
 //!   rbv c05 api --seed S --n N
-//! Lines: `hist <id>` / `push <k> => <10 fields>` / `shape => <10 fields>` / `clear => <10 fields>`
+//! Lines: `hist <id>` / `push <k> => <12 fields>` / `shape => <12 fields>` / `clear => <12 fields>`
 use crate::shp::*;
 use crate::util::*;
 use rustybuzz::verif::buffer::{glyph_state, unicode_state};
 use rustybuzz::UnicodeBuffer;
 
-fn fmt(s: [u64; 10]) -> String {
+fn fmt(s: [u64; 12]) -> String {
     s.iter().map(|x| x.to_string()).collect::<Vec<_>>().join(" ")
 }
 
